@@ -239,7 +239,8 @@ def run(ctx):
     lsp = impl.lsp()
     roots = [n for k, n in mm.roots() if hasattr(lsp, n)]
     kmin, kmax = (3, 1) if ctx.thorough else (2, 0)
-    opts = {"cap_s": 900 if ctx.thorough else 120, "max_dev": 2 if ctx.thorough else 1, "cap_combos": 64 if ctx.thorough else 24}
+    opts = {"cap_s": 300 if ctx.thorough else 120, "max_dev": 2 if ctx.thorough else 1, "cap_combos": 16 if ctx.thorough else 24,
+            "max_base_n1_limit": 250}
     a, v = explore_roots(ctx, judge, roots, kmin, kmax, opts)
     res.merge_violations(v)
     res.coverage = {
